@@ -136,6 +136,7 @@ func (in *interpreter) resetForPath(p *pathState) {
 	in.onceDone = map[*value]bool{}
 	in.crashArmed = false
 	in.mapRanges, in.reverseRange = 0, 0
+	in.jsonDecs = nil
 }
 
 func (in *interpreter) callTop(fn *ssa.Function, args []value) value {
